@@ -649,6 +649,9 @@ class ModelSpec:
         """
         return self.update(
             formula=self.formula.differentiate(*wrt, use_sympy=use_sympy),
+            # The structure (if any) describes the columns of the original
+            # terms, and so must be rebuilt when next materialized.
+            structure=None,
         )
 
     # Only include dataclass fields when pickling.
